@@ -333,6 +333,8 @@ class FnTr:
             tl = self.etype(e.left)
             if tl is not None and not isinstance(tl, str) and tl[0] == "list":
                 return ty_join(tl, self.etype(e.right))
+        if isinstance(e, ast.BinOp) and isinstance(e.op, ast.Mult) and isinstance(e.left, ast.List) and len(e.left.elts) == 1:
+            return ("list", self.etype(e.left.elts[0]))
         if isinstance(e, ast.BinOp):
             t = "Int"
             for x in (e.left, e.right):
@@ -507,14 +509,18 @@ class FnTr:
                 raise Unsupported("list comprehension over something else than range")
             a = "(0 : Int)" if len(it.args) == 1 else self.expr(it.args[0], "num")
             b = self.expr(it.args[-1], "num")
-            if g.target.id == "_":
+            if g.target.id == "_" and not self.effectful(e.elt):
                 return "(List.replicate (%s - %s).toNat %s)" % (b, a, self.expr(e.elt))
+            if g.target.id == "_":
+                return "(← (pyRange %s %s).mapM (fun _ => do pure %s))" % (a, b, self.expr(e.elt))
             self.vtypes.setdefault(g.target.id, "Int")
             et = self.etype(e.elt)
             body = self.num_as(e.elt, et) if isnum(et) else self.expr(e.elt)
             return "(← (pyRange %s %s).mapM (fun %s => do pure %s))" % (a, b, self.vn(g.target.id), body)
         if isinstance(e, ast.Call) and isinstance(e.func, ast.Name) and e.func.id in ("min", "max") and len(e.args) == 1:
             return "(← py%s %s)" % (e.func.id.capitalize(), self.expr(e.args[0]))
+        if isinstance(e, ast.BinOp) and isinstance(e.op, ast.Mult) and isinstance(e.left, ast.List) and len(e.left.elts) == 1:
+            return "(List.replicate (%s).toNat %s)" % (self.expr(e.right, "num"), self.expr(e.left.elts[0]))
         if isinstance(e, ast.BinOp) and isinstance(e.op, ast.Add) and self.etype(e.left) is not None \
                 and not isinstance(self.etype(e.left), str) and self.etype(e.left)[0] == "list":
             T = self.etype(e)
@@ -807,7 +813,7 @@ class FnTr:
                             flat.append(z)
                     fl(t)
                     for y in flat:
-                        if isinstance(y, ast.Subscript):
+                        while isinstance(y, ast.Subscript):
                             y = y.value
                         k = self.vkey(y)
                         if k is not None and k != "_" and k not in s:
@@ -1106,6 +1112,36 @@ class FnTr:
                         "(" + ", ".join(self.expr(z, "num") for z in st.value.elts) + ")"))
                 else:
                     raise Unsupported("array assignment of an unexpected form (line %d)" % st.lineno)
+                continue
+            if isinstance(st, ast.Assign) and len(st.targets) == 1 and isinstance(st.targets[0], ast.Subscript) \
+                    and self.etype(st.targets[0].value) is not None and not isinstance(self.etype(st.targets[0].value), str) \
+                    and self.etype(st.targets[0].value)[0] == "list":
+                # X[i] = v, X[i][j] = v, X[i][j][k] = v on (nested) lists
+                idx = []
+                base = st.targets[0]
+                while isinstance(base, ast.Subscript):
+                    idx.append(base.slice)
+                    base = base.value
+                idx.reverse()
+                arr = self.vkey(base)
+                if arr is None or arr not in defined or self.is_opt(self.vtypes.get(arr)):
+                    raise Unsupported("assignment into an unknown / optional list")
+                et = self.etype(st.targets[0])
+                v = self.num_as(st.value, et) if isnum(et) else self.expr(st.value)
+                tmp = "set_%d" % self.fresh()
+                out.append("%slet %s := %s" % (ind, tmp, v))
+                ixs = []
+                for z in idx:
+                    nm = "ix_%d" % self.fresh()
+                    out.append("%slet %s : Int := %s" % (ind, nm, self.expr(z, "num")))
+                    ixs.append(nm)
+
+                def build(cur, rest):
+                    if len(rest) == 1:
+                        return "(← pySetAt %s %s %s)" % (cur, rest[0], tmp)
+                    inner = "(← pyIndex %s %s)" % (cur, rest[0])
+                    return "(← pySetAt %s %s %s)" % (cur, rest[0], build(inner, rest[1:]))
+                out.append("%s%s := %s" % (ind, self.vn(arr), build(self.vn(arr), ixs)))
                 continue
             if isinstance(st, (ast.Assign, ast.AugAssign)):
                 if isinstance(st, ast.Assign):
@@ -1717,6 +1753,8 @@ FUNCTIONS = [
      {"uf": "Rat", "ub": "Rat", "rd": "Rat", "wd": "Rat", "opt_0": ("opt", ("list", ("list", "Rat")))},
      {"consts": {"print_table": None, "one_read_disk": True, "opt_1d": None},
       "drop_params": ["print_table", "one_read_disk", "opt_1d"]}),
+    ("hrevolve_sequences/hrevolve.py", "get_hopt_table", "get_hopt_table",
+     {"cvect": ("list", "Int"), "wvect": ("list", "Rat"), "rvect": ("list", "Rat"), "ub": "Rat", "uf": "Rat"}, {}),
     ("hrevolve_sequences/periodic_disk_revolve.py", "mxrr_close_formula", "mxrr_close_formula",
      {"uf": "Rat", "rd": "Rat", "wd": "Rat"}, {}),
     ("hrevolve.py", "_convert_action", "convert_action", {"action": ("struct", "PyOp")}, {"split_dict_keys": True}),
